@@ -897,8 +897,12 @@ func selftest(args []string) int {
 		rep   int
 	}
 	var cfgs []cfg
+	reps := 2
+	if n, err := strconv.Atoi(os.Getenv("HTSV_SELFTEST_REPS")); err == nil && n > 0 {
+		reps = n
+	}
 	for _, p := range []string{"1", "4", "16"} {
-		for r := 0; r < 2; r++ {
+		for r := 0; r < reps; r++ {
 			cfgs = append(cfgs, cfg{p, r})
 		}
 	}
@@ -926,7 +930,8 @@ func selftest(args []string) int {
 				jb, _ := json.Marshal(job)
 				jp := filepath.Join(work, fmt.Sprintf("%s-%d.job", id, i))
 				os.WriteFile(jp, jb, 0o644)
-				cmd := exec.Command(b.bin, "-test.run", "^TestWorker$", "-test.cpu", "1", "-test.timeout", "0")
+				// -test.cpu sets the real GOMAXPROCS of the worker (the env variable alone would be overridden by it)
+				cmd := exec.Command(b.bin, "-test.run", "^TestWorker$", "-test.cpu", c.procs, "-test.timeout", "0")
 				cmd.Env = append(goEnv(), "HTSV_JOB="+jp, "GOMAXPROCS="+c.procs, "HTSV_COLLECT=1")
 				out, err := cmd.CombinedOutput()
 				sb, _ := os.ReadFile(sig)
@@ -959,7 +964,7 @@ func selftest(args []string) int {
 		}
 		n := strings.Count(outs[0], "\n")
 		if ok {
-			fmt.Printf("selftest: %s: %d runs x %d processes (GOMAXPROCS 1,4,16 x 2): identical run signatures\n", id, n, len(cfgs))
+			fmt.Printf("selftest: %s: %d runs x %d processes (GOMAXPROCS 1,4,16 x %d): identical run signatures\n", id, n, len(cfgs), reps)
 		} else {
 			bad++
 		}
